@@ -73,7 +73,7 @@ Proof. intros. unfold obj_syms. rewrite H. reflexivity. Qed.
 
 (* ---------------------------------------------- re-binding keeps the text *)
 Lemma write_rebind : forall W' h t t' m,
-  (forall s s', In s (syms t) -> lookup (sname (h s)) t' = Some s' ->
+  (forall s s', In s (syms t) -> lookup (norm (sname (h s))) t' = Some s' ->
                 sname (hs W' s') = sname (hs W' s)) ->
   write W' (rebind h t t' m) = write W' m.
 Proof.
@@ -81,7 +81,7 @@ Proof.
   assert (Hsl : wslot (hs W') (rebind_slot h t t' sl) = wslot (hs W') sl).
   { destruct sl as [|s|s]; simpl; try reflexivity.
     destruct (memN s (syms t)) eqn:E; [|reflexivity].
-    destruct (lookup (sname (h s)) t') as [s'|] eqn:L; [|reflexivity].
+    destruct (lookup (norm (sname (h s))) t') as [s'|] eqn:L; [|reflexivity].
     simpl. rewrite (Hn s s'); [reflexivity| apply memN_true; exact E | exact L]. }
   rewrite Hsl. f_equal. f_equal. f_equal. f_equal. f_equal. apply flat_map_map_Forall. exact IH.
 Qed.
@@ -111,11 +111,11 @@ Section CopyEqual.
     (forall x, In x (syms t) ->
        hs W' (x + soff) = copied_sym (hs W) off ooff (deep_copy_table (hs W) soff t) (hs W x)) ->
     Forall (fun x => x < soff) (sym_sup W s) -> Forall (fun o => o < ooff) (sym_objs W s) ->
-    wdecl W' (sname (hs W s), s + soff) = wdecl W (k, s).
+    wdecl W' (norm (sname (hs W s)), s + soff) = wdecl W (k, s).
   Proof.
     intros t k s Hwf Himp Hin Hnew Hss Hso.
     assert (Hs : In s (syms t)) by (unfold syms; apply in_map_iff; exists (k, s); auto).
-    assert (Hk : k = sname (hs W s)).
+    assert (Hk : k = norm (sname (hs W s))).
     { destruct Hwf as [_ Hk]. rewrite Forall_forall in Hk. apply (Hk (k, s) Hin). }
     unfold sym_sup in Hss. unfold sym_objs in Hso.
     apply Forall_cons_iff in Hss as [_ Hss]. rewrite !Forall_app in Hss. destruct Hss as [Hdt [Hinit Hintf]].
@@ -131,7 +131,7 @@ Section CopyEqual.
     assert (Ef : wintf W' match sintf (hs W s) with
                           | ILocal o => if styped (hs W s) then ILocal o else ILocal (o + ooff)
                           | IImport c =>
-                              match lookup (sname (hs W c)) (deep_copy_table (hs W) soff t) with
+                              match lookup (norm (sname (hs W c))) (deep_copy_table (hs W) soff t) with
                               | Some c' => IImport c'
                               | None => IImport c
                               end
@@ -167,7 +167,7 @@ Section CopyEqual.
     (forall x, In x (syms t) ->
        hs W' (x + soff) = copied_sym (hs W) off ooff (deep_copy_table (hs W) soff t) (hs W x)) ->
     Forall (fun x => x < soff) (syms t) ->
-    forall s s', In s (syms t) -> lookup (sname (hs W s)) (deep_copy_table (hs W) soff t) = Some s' ->
+    forall s s', In s (syms t) -> lookup (norm (sname (hs W s))) (deep_copy_table (hs W) soff t) = Some s' ->
                  sname (hs W' s') = sname (hs W' s).
   Proof.
     intros t Hwf Hnew Hlt s s' Hs L. rewrite (lookup_deep_copy (hs W) soff t s Hwf Hs) in L.
@@ -269,13 +269,13 @@ Qed.
 
 (* ------------------------------------------------------- copy_refs_local *)
 Definition rebind_sym (h : N -> sym) (t t' : table) (s : N) : N :=
-  if memN s (syms t) then match lookup (sname (h s)) t' with Some s' => s' | None => s end else s.
+  if memN s (syms t) then match lookup (norm (sname (h s))) t' with Some s' => s' | None => s end else s.
 
 Lemma refs_rebind : forall h t t' m, refs (rebind h t t' m) = map (rebind_sym h t t') (refs m).
 Proof.
   intros h t t' m. induction m as [i tag sl tab ch IH] using node_ind'. simpl. rewrite map_app. f_equal.
   - destruct sl as [|s|s]; simpl; try reflexivity. unfold rebind_sym.
-    destruct (memN s (syms t)); [|reflexivity]. destruct (lookup (sname (h s)) t'); reflexivity.
+    destruct (memN s (syms t)); [|reflexivity]. destruct (lookup (norm (sname (h s))) t'); reflexivity.
   - clear -IH. induction IH as [|c r Hc _ IHr]; simpl; [reflexivity|]. rewrite map_app, Hc, IHr. reflexivity.
 Qed.
 
@@ -283,7 +283,7 @@ Lemma plains_rebind : forall h t t' m, plains (rebind h t t' m) = plains m.
 Proof.
   intros h t t' m. induction m as [i tag sl tab ch IH] using node_ind'. simpl. f_equal.
   - destruct sl as [|s|s]; simpl; try reflexivity.
-    destruct (memN s (syms t)); [|reflexivity]. destruct (lookup (sname (h s)) t'); reflexivity.
+    destruct (memN s (syms t)); [|reflexivity]. destruct (lookup (norm (sname (h s))) t'); reflexivity.
   - apply flat_map_map_Forall. exact IH.
 Qed.
 
